@@ -31,7 +31,9 @@ def run(ctx):
                  ('G-OWNER', 'the address size of a set comes from the set header')):
         ctx.rule(r, d)
     ctx.guard('G-OWNER', 'set headers', owner.gowner_headers, ctx, w, ('dwarf/aranges.py', 'dwarf/namelut.py'))
-    ctx.floor('G-OWNER', 2)
+    # the unit walk behind get_CU_containing / iter_CUs steps by the size of each unit's *own* initial length field (shared with C04)
+    ctx.guard('G-OWNER', 'unit walk', owner.gowner, ctx, w, ('dwarf/dwarfinfo.py',))
+    ctx.floor('G-OWNER', 6)
     ctx.guard('L-CONF', 'aranges', dwconf.check_struct, ctx, w, 'Dwarf_aranges_header', D.ARANGES_HEADER)
     ctx.guard('L-CONF', 'nameLUT', dwconf.check_struct, ctx, w, 'Dwarf_nameLUT_header', D.NAMELUT_HEADER)
     ctx.guard('L-CONF', 'entries', check_entry_structs, ctx, w)
